@@ -30,7 +30,8 @@ EXPLANATION = (
     "update takes job_name from the row with parent_event_id IS NULL of the "
     "same job_id. R11.6 the sibling predicate used for unique-graph "
     "candidates has the same normal form. R11.7 link rows follow node "
-    "deletes.")
+    "deletes."
+    " Added: R11.7 no orphan link rows; R11.8 the window's ends come from save_data only (idioms: min/max or independent compare-and-assign; fallback only in the initial state); R11.9 no phantom parent link; every cleaning statement runs on every path.")
 TRUSTED = ["builder-method semantics table of sa/sqlabs.py",
            "count(..).filter(P) > 0 under GROUP BY job_id means 'some span "
            "of the trace satisfies P'"]
